@@ -23,6 +23,35 @@ class RecArr(np.ndarray):
         self._rec = getattr(obj, '_rec', None)
         self._off = getattr(obj, '_off', 0)
         self._isroot = False  # views (rows, slices) of a recorded array are not tracked for initialisation
+        self._rootptr = getattr(obj, '_rootptr', None)  # memory extent and row stride of the array this is a view of (row mode)
+        self._rootend = getattr(obj, '_rootend', None)
+        self._rootstride = getattr(obj, '_rootstride', None)
+
+    def _abs_rows(self, idx):
+        """first-axis rows of the *root* array that an assignment self[idx] = ... touches, or None if self does not live in the
+        root's memory (a copy) or the pattern is not understood."""
+        if self._rootptr is None or self.ndim == 0 or not self._rootstride:
+            return None
+        ptr = self.__array_interface__['data'][0]
+        if not (self._rootptr <= ptr < self._rootend) and self.size:
+            return None
+        if self.ndim >= 1 and self.strides[0] != self._rootstride and self.shape[0] > 1:
+            return None
+        first = idx[0] if isinstance(idx, tuple) and len(idx) else idx
+        n0 = self.shape[0]
+        if isinstance(first, (int, np.integer)):
+            local = np.array([int(first) % max(n0, 1)])
+        elif isinstance(first, slice):
+            local = np.arange(n0)[first]
+        elif first is Ellipsis or (isinstance(first, tuple) and not first):
+            local = np.arange(n0)
+        elif isinstance(first, np.ndarray) and first.dtype == bool:
+            local = np.nonzero(first)[0]
+        elif isinstance(first, np.ndarray) and first.dtype.kind in 'iu':
+            local = np.asarray(first).ravel() % max(n0, 1)
+        else:
+            return None
+        return (ptr - self._rootptr) // self._rootstride + local
 
     def __getitem__(self, idx):
         # a scalar read of an element of an np.empty array that nothing has written yet = use of uninitialised memory
@@ -38,6 +67,14 @@ class RecArr(np.ndarray):
             rec.ever_written.add((self._vid, int(idx)))
         elif rec is not None and self._isroot and self.ndim == 1:
             rec.ever_written.update((self._vid, int(i)) for i in np.arange(len(self))[idx].ravel())  # slice / mask / fancy assignment
+        if rec is not None and rec.iteration is not None and getattr(rec, 'row_mode', False):
+            rows = self._abs_rows(idx)
+            if rows is not None:
+                rest = tuple(int(i) for i in idx[1:]) if isinstance(idx, tuple) and all(isinstance(i, (int, np.integer)) for i in idx[1:]) else ()
+                for r in rows:
+                    rec.write((self._vid, int(r)) + rest, 1)
+                np.ndarray.__setitem__(self, idx, val)
+                return
         if rec is not None and rec.iteration is not None:
             if isinstance(idx, tuple):
                 key = tuple(int(i) if isinstance(i, (int, np.integer)) else repr(i) for i in idx)
@@ -61,6 +98,9 @@ class NpProxy:
         a._vid = f'{how}#{self._n}'
         a._rec = self._rec
         a._isroot = True
+        a._rootptr = a.__array_interface__['data'][0]
+        a._rootend = a._rootptr + max(a.nbytes, 1)
+        a._rootstride = a.strides[0] if a.ndim else None
         self.created[a._vid] = a
         self._n += 1
         return a
